@@ -8,7 +8,9 @@ use crate::opt::Opt;
 use textwrap::core::display_width as dw;
 
 fn sizes(ctx: &Ctx) -> Vec<usize> {
-    let mut v = if ctx.thorough { vec![70, 1_100, 2_100, 10_100, 41_000, 100_000] } else { vec![70, 1_100, 10_100] };
+    // … and just above the limits of the narrow integer types (u8, u16): a count kept in one of
+    // them, or a block size of `u16::MAX`, is nowhere in the source as a number
+    let mut v = if ctx.thorough { vec![70, 258, 1_100, 2_100, 10_100, 41_000, 65_540, 100_000] } else { vec![70, 258, 1_100, 10_100, 65_540] };
     // sizes just above the numbers the code under test mentions (`gen::dict`): limits, block sizes
     // and fall-back thresholds — at most ten (quick) / twenty-four (thorough), spread over the range
     let cap = if ctx.thorough { 120_000 } else { 20_000 };
@@ -28,6 +30,14 @@ fn sizes(ctx: &Ctx) -> Vec<usize> {
 }
 
 const WORDS: &[&str] = &["a", "to", "the", "that", "being", "x-y", "wrapped", "question", "é", "Ｈi", "well-known"];
+/// words of multi-byte characters only (2, 3 and 4 bytes each, mixed lengths): in a text made of
+/// them almost every fixed byte offset lies inside a character, so code that cuts at a constant
+/// offset (`&s[..N]`) or counts bytes where it should count chars shows on long inputs
+const DENSE: &[&str] = &["字", "日本語", "éé", "😂", "ΩΩΩ", "한글", "ß", "字字字字", "👉é"];
+
+fn pick_word(ctx: &mut Ctx) -> &'static str {
+    if ctx.dense { *ctx.rng.pick(DENSE) } else { *ctx.rng.pick(WORDS) }
+}
 
 fn long_para(ctx: &mut Ctx, n: usize) -> String {
     let mut s = String::new();
@@ -35,7 +45,7 @@ fn long_para(ctx: &mut Ctx, n: usize) -> String {
         if i > 0 {
             s.push(' ');
         }
-        s.push_str(*ctx.rng.pick(WORDS));
+        s.push_str(pick_word(ctx));
     }
     s
 }
@@ -71,7 +81,14 @@ fn squeeze(s: &str) -> String {
 }
 
 pub fn long_cases(ctx: &mut Ctx) {
+    ctx.dense = false;
     long_cases_inner(ctx);
+    // the same ladder on dense multi-byte text (three draws each)
+    for _ in 0..3 {
+        ctx.dense = true;
+        long_cases_inner(ctx);
+    }
+    ctx.dense = false;
     let p = ctx.prop.clone();
     ctx.canary_check(&format!("the last long-input case for {}", p));
 }
@@ -273,7 +290,7 @@ fn long_cases_inner(ctx: &mut Ctx) {
                 let mut t = String::new();
                 for i in 0..n {
                     t.push_str(match i % 5 { 0 => "    ", 1 => "      ", 2 => "    \t", 3 => "", _ => "     " });
-                    if i % 5 != 3 { t.push_str(*ctx.rng.pick(WORDS)); }
+                    if i % 5 != 3 { t.push_str(pick_word(ctx)); }
                     t.push('\n');
                 }
                 let d = format!("dedent / indent(text of {} lines)", n);
